@@ -4,6 +4,7 @@
 #include <errno.h>
 #include <pthread.h>
 #include <sched.h>
+#include <signal.h>
 #include <stdarg.h>
 #include <unistd.h>
 
@@ -143,9 +144,15 @@ void vp_real_sleep_us(uint64_t us) {
 // ------------------------------------------------------------------ tid
 static _Atomic int g_next_tid;
 static __thread int t_tid = -1;
+static pthread_t g_pthreads[VP_MAX_THREADS];
+static _Atomic int g_pthread_known[VP_MAX_THREADS];
 __attribute__((noinline)) int vp_tid(void) {
   if (t_tid < 0) {
     t_tid = atomic_fetch_add(&g_next_tid, 1);
+    if (t_tid < VP_MAX_THREADS) {
+      g_pthreads[t_tid] = pthread_self();
+      atomic_store(&g_pthread_known[t_tid], 1);
+    }
     if (t_tid >= VP_MAX_THREADS) {
       fprintf(stderr, "too many kernel threads\n");
       _exit(2);
@@ -366,7 +373,58 @@ void vp_point(int point, const void* a, const void* b) {
   if (vp_cfg.mode != VP_MODE_NOHOOK) vp_dispatch(point, a, b);
 }
 
+static _Atomic int g_finishing;
+// ---- "preempt" perturbation: a plain pthread interrupts the registered kernel threads every few hundred microseconds
+// and the handler burns 20-300 us. This is what the OS scheduler may do to a kernel thread at ANY instruction, so it
+// reaches windows that have no hook point. The handler only spins on the monotonic clock (async-signal-safe).
+static _Atomic long g_preempts;
+static void preempt_handler(int sig) {
+  (void)sig;
+  static __thread uint64_t r;
+  if (!r) r = vp_now_ns() | 1;
+  r = r * 6364136223846793005ULL + 1442695040888963407ULL;
+  const uint64_t ns = 20000 + (r >> 33) % 280000;
+  const uint64_t end = vp_now_ns() + ns;
+  while (vp_now_ns() < end) {
+  }
+  atomic_fetch_add_explicit(&g_preempts, 1, memory_order_relaxed);
+}
+static void* preempter(void* a) {
+  (void)a;
+  uint64_t r = vp_mix(vp_cfg.seed, 31337);
+  const long period_us = vp_param("preempt_us", 300);
+  for (;;) {
+    vp_real_sleep_us((uint64_t)(period_us / 2 + (long)(vp_rand(&r) % (unsigned long)period_us)));
+    if (atomic_load(&g_finishing)) return NULL;
+    const int n = atomic_load(&g_next_tid);
+    if (n <= 0) continue;
+    const int victim = (int)(vp_rand(&r) % (unsigned)(n < VP_MAX_THREADS ? n : VP_MAX_THREADS));
+    if (atomic_load(&g_pthread_known[victim])) pthread_kill(g_pthreads[victim], SIGUSR1);
+  }
+  return NULL;
+}
+static void preempt_start(void) {
+  struct sigaction sa;
+  memset(&sa, 0, sizeof(sa));
+  sa.sa_handler = preempt_handler;
+  sa.sa_flags = SA_RESTART;
+  sigemptyset(&sa.sa_mask);
+  sigaction(SIGUSR1, &sa, NULL);
+  pthread_t t;
+  pthread_attr_t attr;
+  pthread_attr_init(&attr);
+  pthread_attr_setstacksize(&attr, 1 << 20);
+  sigset_t block, old;
+  sigemptyset(&block);
+  sigaddset(&block, SIGUSR1);
+  pthread_sigmask(SIG_BLOCK, &block, &old);  // the preempter itself (and nothing else) keeps the signal blocked
+  pthread_create(&t, &attr, preempter, NULL);
+  pthread_sigmask(SIG_SETMASK, &old, NULL);
+  pthread_detach(t);
+}
+
 void vp_hook_install(void) {
+  if (vp_param("preempt", 0)) preempt_start();
   int i;
   for (i = 0; i < VP_MAX_THREADS; ++i) {
     g_thr[i].rng = vp_mix(vp_cfg.seed, 1000 + i);
@@ -391,7 +449,6 @@ static void json_str(FILE* f, const char* s) {
   fputc('"', f);
 }
 
-static _Atomic int g_finishing;
 static _Atomic int g_done;
 
 static void write_result(const char* status) {
@@ -423,7 +480,7 @@ static void write_result(const char* status) {
     json_str(f, g_counters[i].name);
     fprintf(f, ":%ld", atomic_load(&g_counters[i].v));
   }
-  fprintf(f, "},\"hook_hits\":{");
+  fprintf(f, "},\"preemptions_injected\":%ld,\"hook_hits\":{", atomic_load(&g_preempts));
   first = 1;
   for (i = 0; i < VP_NPOINTS; ++i) {
     long h = vp_hook_hits(i);
@@ -512,7 +569,10 @@ static void* wd_main(void* arg) {
   const long livelock_hits = vp_param("livelock_hits", 30000000);
   const long q_need = vp_param("quiesce_samples", 4);
   uint64_t last_p = atomic_load(&vp_progress_ctr);
-  long base_h = 0, base_rx = 0;
+  long base_h = 0, base_rx = 0, base_ws = 0;
+  // an announced waiter enqueues within a few instructions; half a billion futile looks for it (about ten seconds of a
+  // waker doing nothing else, with no client operation completing anywhere) is a waiter that will never come
+  const long wake_spin_limit = vp_param("wake_spin_limit", 500000000L);
   int viol_linger = 0;
   const long relax_limit = vp_param("relax_limit", 4000000000L);
   int q_streak = 0;
@@ -549,15 +609,17 @@ static void* wd_main(void* arg) {
       // steps = context switches; tight in-place spins (cpu_relax, the wake loop waiting for an announced waiter, CAS2
       // retries) are all "pure spinning"
       const long h = vp_hook_hits(FV_SWITCH_PRE);
-      const long rx = vp_hook_hits(FV_CPU_RELAX) + vp_hook_hits(FV_WAKE_SPIN) + vp_hook_hits(FV_CAS2_PRE);
+      const long rx = vp_hook_hits(FV_CPU_RELAX) + vp_hook_hits(FV_CAS2_PRE);
+      const long ws = vp_hook_hits(FV_WAKE_SPIN);  // a waker looking for an announced waiter that is not enqueued yet
       if (p != last_p) {
         last_p = p;
         base_h = h;
         base_rx = rx;
-      } else if (h - base_h > livelock_hits || rx - base_rx > relax_limit) {
+        base_ws = ws;
+      } else if (h - base_h > livelock_hits || rx - base_rx > relax_limit || ws - base_ws > wake_spin_limit) {
         vp_violation(vp_param_str("livelock_prop", "C02"), "livelock",
                      "no client operation completed during %ld context switches and %ld in-place spins (totals: spins=%ld switches=%ld wake-spins=%ld)",
-                     h - base_h, rx - base_rx, rx, vp_hook_hits(FV_SWITCH_PRE), vp_hook_hits(FV_WAKE_SPIN));
+                     h - base_h, (rx - base_rx) + (ws - base_ws), rx, vp_hook_hits(FV_SWITCH_PRE), ws);
         if (g_runtime_mode) vp_ghost_dump(stderr, 40);
         vp_finish();
       }
